@@ -69,7 +69,7 @@ def build_tree(forest, data, order=None):
 
 
 # ------------------------------------------------------------------ data
-def make_data(rng, n, samples=1, grid=5, style="gauss", outlier_prob=0.0, spread=6.0):
+def make_data(rng, n, samples=1, grid=5, style="gauss", outlier_prob=0.0, spread=6.0, hetero=False):
     """n DataPoints with (samples x grid) log-likelihood rows inside a small dynamic range.
     rng: random.Random (the harness PRNG, never the device under test)."""
     from phyclone.data.base import DataPoint
@@ -96,7 +96,8 @@ def make_data(rng, n, samples=1, grid=5, style="gauss", outlier_prob=0.0, spread
         if outlier_prob and outlier_prob > 0:
             from phyclone.data.pyclone import compute_outlier_prob
 
-            lo, ln = compute_outlier_prob(outlier_prob, 1)
+            # hetero: per-point outlier prior as for pre-clustered input (log p and log(1-p) times the cluster size)
+            lo, ln = compute_outlier_prob(outlier_prob, (1 + (i * 7) % 3) if hetero else 1)
             data.append(DataPoint(i, val, outlier_prob=lo, outlier_prob_not=ln))
         else:
             data.append(DataPoint(i, val, outlier_prob=0, outlier_prob_not=0.0))
